@@ -177,11 +177,13 @@ func VerifC09_CancelDrain() {
 	}
 	_, open := <-ref
 	verifAssert(!open, "after cancellation and the last sender's Done the subscriber channel is closed")
+	isDone := false
 	select {
 	case <-t.Done():
+		isDone = true
 	default:
-		verifAssert(false, "after cancellation and the last sender's Done the tracer is done")
 	}
+	verifAssert(isDone, "after cancellation and the last sender's Done the tracer is done")
 }
 
 // a subscriber that joined before anything was sent, with the given buffer, read by a consumer that may lag arbitrarily:
